@@ -176,7 +176,7 @@ func (c *CBC) Decrypt(header recordlayer.Header, in []byte) ([]byte, error) {
 		return nil, dtlserrors.ErrInvalidMAC
 	}
 
-	return append(in[:header.Size()], body[:dataEnd]...), nil
+	return plaintextRecord(in, header.Size(), body[:dataEnd]), nil
 }
 
 func (c *CBC) hmac(
